@@ -839,7 +839,7 @@ def gen_strict(rng, tier, count):
         else:
             votes = [rand_perm(rng, alts) for _ in range(min(n, 12))]
             flags |= F_SP | F_SC | F_TREE
-        votes = noise_strict(rng, alts, c03.distinct(votes), noise)
+        votes = noise_strict(rng, alts, c03.distinct(votes), noise)[:60]
         rng.shuffle(votes)
         mults = rand_mults(rng, len(votes))
         if fam == "ties":
@@ -995,10 +995,10 @@ def generate(tier, seed):
     rng = random.Random(15_000 + seed * 7919 + (0 if tier == "quick" else 1))
     q = tier == "quick"
     out = []
-    out += gen_strict(rng, tier, 160 if q else 1200)
-    out += gen_small(rng, tier, 60 if q else 400, 8 if q else 40, 6 if q else 30)
-    out += gen_scoring(rng, tier, 120 if q else 900)
-    out += gen_app(rng, tier, 80 if q else 600)
-    out += gen_mat(rng, tier, 80 if q else 600)
+    out += gen_strict(rng, tier, 400 if q else 3000)
+    out += gen_small(rng, tier, 120 if q else 900, 14 if q else 80, 10 if q else 60)
+    out += gen_scoring(rng, tier, 300 if q else 2400)
+    out += gen_app(rng, tier, 200 if q else 1600)
+    out += gen_mat(rng, tier, 200 if q else 1600)
     out += gen_eucl(tier)
     return out
